@@ -8,13 +8,15 @@ RULE = ("Same generated machines, eject outcomes and histories as C04 (see props
         "liveness at rest: every device is idle or has reported itself broken after max_eject_attempts, no queued "
         "request has a ball physically available upstream, requested balls were physically delivered or are still "
         "queued, every too-weak / fall-back eject was followed by another pulse or an eject_failed event, no task "
-        "crashed. Non-trivial = at least one eject anomaly, a request queued while no ball was available, overlapping "
+        "crashed; under a game a ball counted as in play is physically in play unless trough and outhole are empty. "
+        "Non-trivial = at least one eject anomaly, a request queued while no ball was available, overlapping "
         "ejects or >= 3 coil pulses. Distinct = case hash.")
 ASSUMPTIONS = [
     "same physical envelope as C04",
     "'eventually' is decided as: the world and MPF come to rest within 60 rounds of 75 s virtual quiet",
     "a mechanical plunger is eventually plunged by the player when MPF waits for it",
     "after a device reported itself broken the history ends (requests through it cannot be served)",
+    "at most capacity-many request_ball calls per device (asking for more than fits is a caller error)",
 ]
 
 
